@@ -142,8 +142,15 @@ def k_hatvee(run, case):
     L = lie(case)
     rng = run.rng(case)
     v = rng.normal(size=3) * 10.0**rng.uniform(-12, 9)
+    mixed = bool(rng.random() < .3)
+    if mixed:
+        # components of very different magnitudes (a rotation about an almost principal axis, a
+        # residual next to a large component), zeros, subnormal numbers
+        v = v * 10.0**rng.uniform(-25, 0, size=3)
+        if rng.random() < .3:
+            v[int(rng.integers(3))] = [0.0, -0.0, 5e-324][rng.integers(3)]
     w = rng.normal(size=3)
-    run.seen(case, core.digest(v), cls="hatvee", sample={"v": v})
+    run.seen(case, core.digest(v), cls=["hatvee"] + (["hatvee: mixed magnitudes"] if mixed else []), sample={"v": v})
     H = L.hat(v)
     run.check(np.array_equal(H, -H.T) and np.all(np.diag(H) == 0), "hat skew", case,
               "hat(v) is not skew symmetric", v=v)
@@ -151,7 +158,7 @@ def k_hatvee(run, case):
     c = np.array([v[1] * w[2] - v[2] * w[1], v[2] * w[0] - v[0] * w[2], v[0] * w[1] - v[1] * w[0]])
     run.check(np.allclose(H @ w, c, rtol=1e-12, atol=0), "hat(v)w==v x w", case,
               "hat(v) w differs from the cross product", v=v, w=w)
-    M = rm.hat(rng.normal(size=3) * 10.0**rng.uniform(-6, 6))
+    M = rm.hat(rng.normal(size=3) * 10.0**rng.uniform(-6, 6) * (10.0**rng.uniform(-25, 0, size=3) if mixed else 1.0))
     run.check(np.array_equal(L.hat(L.vee(M)), M), "hat(vee(M))==M", case, "hat(vee(M)) != M", M=M)
 
 
